@@ -157,7 +157,16 @@ def run_concrete(case) -> list[tuple[str, str]]:
             r.read(k)
             return r
 
+        def positioned(pre: bytes):
+            # the stream starts where the caller left the (seekable) input, not at offset 0;
+            # what precedes it looks like the other framing mode
+            b = io.BytesIO(pre + data)
+            b.read(len(pre))
+            return b
+
         for api, source in (("generic", "bytesio"), ("generic", "raw"), ("generic", "buffered"),
+                            ("generic", "bytesio-after-zeros"), ("generic", "bytesio-after-0a"),
+                            ("rdflib", "bytesio-after-zeros"), ("rdflib", "bytesio-after-0a"),
                             ("rdflib", "bytesio"), ("rdflib", "raw"),
                             ("generic", "preamble14"), ("generic", "preamble15"),
                             ("generic", "tinybuf"), ("generic", "raw1"), ("generic", "raw2")):
@@ -168,6 +177,8 @@ def run_concrete(case) -> list[tuple[str, str]]:
                    "buffered": lambda: io.BufferedReader(faultio.ScheduleRaw(data, default=5)),
                    "raw1": lambda: faultio.ScheduleRaw(data, default=1),
                    "raw2": lambda: faultio.ScheduleRaw(data, (2,)),
+                   "bytesio-after-zeros": lambda: positioned(b"\x00\x00\x00\x00\x07"),
+                   "bytesio-after-0a": lambda: positioned(b"\x0a\x03\x0a\x01\x00"),
                    "preamble14": lambda: after_preamble(14),
                    "preamble15": lambda: after_preamble(15),
                    "tinybuf": lambda: io.BufferedReader(
@@ -217,7 +228,7 @@ def concrete_shard(job) -> dict:
                     continue
                 case = {"level": "stream", "cls": cls, "preset": list(PRESETS[3]), "name_len": n,
                         "ascii": True, "flags": [True, True, None], "frame_length": t}
-                acc.evals += 5 * 10
+                acc.evals += 5 * 14
                 acc.nontrivial += 5
                 acc.extra.setdefault("headers", set()).update(
                     d[:3].hex() for _, d in concrete_variants(cls, PRESETS[3], "n" * n))
@@ -233,7 +244,7 @@ def concrete_shard(job) -> dict:
                     for flags in (FLAGS if nlen <= 12 else (FLAGS[-1], FLAGS[7])):
                         case = {"level": "stream", "cls": cls, "preset": list(preset),
                                 "name_len": nlen, "ascii": ascii_, "flags": list(flags)}
-                        acc.evals += 5 * 10
+                        acc.evals += 5 * 14
                         acc.nontrivial += 5
                         acc.extra.setdefault("headers", set()).update(
                             d[:3].hex() for _, d in concrete_variants(
